@@ -25,3 +25,4 @@ import TssVerif.Props.C20
 import TssVerif.Props.C04b
 import TssVerif.Props.C05b
 import TssVerif.Props.C09b
+import TssVerif.Props.C04c
